@@ -548,6 +548,11 @@ def min_weight_bipartite_matching(
         raise ValueError(f"Unexpected edge type: {edge_type}")
     else:
         dtype = get_dtype(min_edge, max_edge)
+        if min_edge < np.iinfo(dtype).min or max_edge > np.iinfo(dtype).max:
+            # get_dtype falls back to the platform integer when no integer type holds both ends of the range (e.g., a
+            # negative minimum with a maximum of 2**63 or more); the solver calculates in double precision anyway, and
+            # a float array does not overflow on construction
+            dtype = float
 
     if has_null_edges:
         for row in range(len(from_nodes)):
